@@ -361,6 +361,21 @@ def build_cells(lib):
                     else:
                         out(hn, f"mismatched_shapes_{an}_vs_{vn}_{zn}_target", hf, a_.copy(), v_ * z)
         out(hn, "mismatched_length", hf, a3c.copy(), np.array([[1.0], [0.0]]))
+    # ---------------- scalar multiples of a sparse quaternion matrix: complex scalars have no canonical embedding and are rejected
+    S_ = to_sparse(lib, gen(2, 3))
+    for nm_, sc_ in (("python_complex", 1 + 2j), ("np.complex128", np.complex128(1 + 2j)), ("np.complex64", np.complex64(1 + 2j)), ("str", "2"), ("None", None), ("list", [2.0]), ("bytes", b"2")):
+        out("SparseQuaternionMatrix.__mul__", f"non_real_scalar_{nm_}", (lambda S, c: S * c), S_, sc_)
+        out("SparseQuaternionMatrix.__rmul__", f"non_real_scalar_{nm_}", (lambda S, c: c * S), S_, sc_)
+    for nm_, sc_ in (("int", 2), ("float", 2.5), ("np.float64", np.float64(2.5)), ("np.float32", np.float32(2.5)), ("negative", -1.0), ("zero", 0.0)):
+        inn("SparseQuaternionMatrix.__mul__", f"real_scalar_{nm_}", (lambda S, c: S * c), S_, sc_)
+    # ---------------- component-form product: non-conformable operands, in particular with a one-element operand (no silent broadcasting)
+    from checks.common import comps as _comps
+    for (sa, sb) in (((1, 1), (3, 2)), ((1, 2), (1, 1)), ((2, 3), (2, 3)), ((3, 1), (3, 1)), ((1, 1), (2, 1)), ((2, 2), (1, 1)), ((1, 3), (1, 3))):
+        out("timesQsparse", f"nonconformable_{sa[0]}x{sa[1]}_times_{sb[0]}x{sb[1]}", u.timesQsparse, *_comps(gen(*sa)), *_comps(gen(*sb, 3)))
+        out("timesQsparse(sparse)", f"nonconformable_{sa[0]}x{sa[1]}_times_{sb[0]}x{sb[1]}", u.timesQsparse, *[sp.csr_matrix(c) for c in _comps(gen(*sa))], *[sp.csr_matrix(c) for c in _comps(gen(*sb, 3))])
+        out("quat_matmat", f"nonconformable_{sa[0]}x{sa[1]}_times_{sb[0]}x{sb[1]}", u.quat_matmat, Q(gen(*sa)), Q(gen(*sb, 3)))
+    for (sa, sb) in (((1, 1), (1, 3)), ((3, 1), (1, 1)), ((1, 1), (1, 1)), ((1, 2), (2, 1))):
+        inn("timesQsparse", f"conformable_{sa[0]}x{sa[1]}_times_{sb[0]}x{sb[1]}", u.timesQsparse, *_comps(gen(*sa)), *_comps(gen(*sb, 3)))
     inn("CGNEQSolver.compute", "boundary_1x1", lambda A: sv.CGNEQSolver(max_iter=20).compute(A), Q(spd_tall(1, 1)))
     inn("CGNEQSolver.compute", "boundary_3x1", lambda A: sv.CGNEQSolver(max_iter=20).compute(A), Q(spd_tall(3, 1)))
     out("DeepLinearNewtonSchulz.compute", "layer_mismatch", lambda X, L: sv.DeepLinearNewtonSchulz(max_iter=2).compute(X, L), Q(spd_tall(3, 2)), [3, 2])
